@@ -532,3 +532,111 @@ def switch_depends_on(f, w, locals_set):
         return False
     dep, _, _ = f.depends_on(l)
     return bool(dep & set(locals_set))
+
+
+# ---------------------------------------------------------------------------------------------
+# interprocedural provenance (backward): which calls / constants / field reads may feed a value
+
+class Origins:
+    def __init__(self):
+        self.calls = []      # ir.Call
+        self.consts = []     # (fn, bb, const dict)
+        self.fields = set()  # field names read on the way (".x" without the dot)
+        self.places = []     # (fn, place) with projections
+        self.params = []     # (fn, local) parameters of boundary functions that were reached
+
+    def call_names(self):
+        return set(c.name for c in self.calls)
+
+    def has_call(self, pred):
+        return any(pred(c) for c in self.calls)
+
+
+def origins(prog, f, local, scope=None, call_filter=None, max_frames=6, _seen=None, _out=None):
+    """Backward data-dependence of `local` in f; parameters are followed into every caller's argument
+    (within `scope` paths if given). Closure upvars (`_1.N`) are followed to the creation site."""
+    out = _out if _out is not None else Origins()
+    seen = _seen if _seen is not None else set()
+    key = (f.path, local)
+    if key in seen or max_frames < 0:
+        return out
+    seen.add(key)
+    dep, calls, consts = f.depends_on(local, call_filter=call_filter)
+    out.calls.extend(calls)
+    out.consts.extend((f, bb, c) for bb, c in consts)
+    # field reads
+    for l in dep:
+        for bb, kind, x in f.defs().get(l, []):
+            if kind == "stmt":
+                for o in x.get("o", []):
+                    pl = o.get("p")
+                    if pl and len(pl) > 1:
+                        out.places.append((f, pl))
+                        for e in pl[1:]:
+                            if isinstance(e, str) and e.startswith("."):
+                                out.fields.add(e[1:])
+            else:
+                for a in x.args:
+                    pl = a.get("p")
+                    if pl and len(pl) > 1:
+                        for e in pl[1:]:
+                            if isinstance(e, str) and e.startswith("."):
+                                out.fields.add(e[1:])
+    # parameters -> callers
+    for l in dep:
+        if 1 <= l <= f.nargs:
+            callers = []
+            for cp in prog.redges().get(f.path, ()):
+                if scope is not None and cp not in scope:
+                    continue
+                cf = prog.fns[cp]
+                if cf.is_test_like():
+                    continue
+                callers.append(cf)
+            if not callers:
+                out.params.append((f, l))
+            for cf in callers:
+                if f.is_closure():
+                    # upvars: closure creation operands (param 1 is the closure env)
+                    if l == 1:
+                        for bb, s in cf.stmts():
+                            if s.get("k") == "closure" and s.get("closure") == f.path:
+                                for o in s.get("o", []):
+                                    if "p" in o:
+                                        origins(prog, cf, o["p"][0], scope, call_filter, max_frames - 1, seen, out)
+                                    elif "c" in o:
+                                        out.consts.append((cf, bb, o["c"]))
+                    else:
+                        # closure arguments come from the adaptor that calls it: depend on the adaptor's receiver
+                        for c in cf.live_calls():
+                            for a in c.args:
+                                if "p" in a:
+                                    d2, _, _ = cf.depends_on(a["p"][0])
+                                    # the closure value flows into this call?
+                                    for bb, s in cf.stmts():
+                                        if s.get("k") == "closure" and s.get("closure") == f.path and s["d"][0] in d2:
+                                            for a2 in c.args:
+                                                if "p" in a2 and a2 is not a:
+                                                    origins(prog, cf, a2["p"][0], scope, call_filter, max_frames - 1, seen, out)
+                    continue
+                for c in cf.live_calls():
+                    if any(t.path == f.path for t in prog.call_targets(c)):
+                        if l - 1 < len(c.args):
+                            a = c.args[l - 1]
+                            if "p" in a:
+                                origins(prog, cf, a["p"][0], scope, call_filter, max_frames - 1, seen, out)
+                                for e in a["p"][1:]:
+                                    if isinstance(e, str) and e.startswith("."):
+                                        out.fields.add(e[1:])
+                            elif "c" in a:
+                                out.consts.append((cf, c.bb, a["c"]))
+    return out
+
+
+def agg_field_operand(s, field):
+    """operand of an ADT aggregate statement for the named field"""
+    names = s.get("fields") or []
+    for n, o in zip(names, s.get("o", [])):
+        if n == field:
+            return o
+    return None
